@@ -3118,3 +3118,155 @@ def _np_where2(c, a=None, b=None):
 
 NP._table.update({'argmax': np_argmax, 'argmin': np_argmin, 'sum': np_sum, 'max': _np_max2, 'min': _np_min2,
                   'amax': _np_max2, 'amin': _np_min2, 'append': _np_append, 'where': _np_where2})
+
+
+# ------------------------------------------------------------------------------------------------
+# symbolic finite sets of small integers (the variable sets of vine edges): W membership bits
+# ------------------------------------------------------------------------------------------------
+
+class SymSet(object):
+    """a set of integers in 0..W-1 given by W boolean terms (bit i <=> i in the set); exact semantics of the Python set
+    operations the vine helpers use; iteration is only allowed where the order cannot matter (sorted, singleton)"""
+    W = 7
+
+    def __init__(self, bits):
+        self.bits = [ir.const(b) for b in bits]
+
+    @classmethod
+    def from_elems(cls, elems):
+        bits = []
+        for i in range(cls.W):
+            alts = []
+            for e in elems:
+                if isinstance(e, Sym):
+                    alts.append(ir.eq(e.t, i))
+                elif isinstance(e, int):
+                    alts.append(ir.const(e == i))
+                else:
+                    raise Unsupported('set element %r' % (e,))
+            bits.append(ir.or_(*alts) if alts else ir.FALSE)
+        return cls(bits)
+
+    @classmethod
+    def coerce(cls, x):
+        if isinstance(x, SymSet):
+            return x
+        if isinstance(x, (set, frozenset, list, tuple)):
+            return cls.from_elems(list(x))
+        raise Unsupported('set operand %r' % (x,))
+
+    def size(self):
+        return ir.add(*[ir.ite(b, 1, 0) for b in self.bits])
+
+    def sym_len(self, interp):
+        return Sym(self.size())
+
+    def sym_contains(self, interp, item):
+        if isinstance(item, int):
+            return Sym(self.bits[item]) if 0 <= item < self.W else False
+        if isinstance(item, Sym):
+            return Sym(ir.or_(*[ir.and_(ir.eq(item.t, i), b) for i, b in enumerate(self.bits)]))
+        return False
+
+    def sym_truth(self, interp):
+        return values.truth(Sym(ir.or_(*self.bits)))
+
+    def sym_binop(self, interp, op, other, reflected):
+        o = SymSet.coerce(other)
+        a, b = (o, self) if reflected else (self, o)
+        f = {'BitAnd': lambda x, y: ir.and_(x, y), 'BitOr': lambda x, y: ir.or_(x, y),
+             'BitXor': lambda x, y: ir.or_(ir.and_(x, ir.not_(y)), ir.and_(ir.not_(x), y)),
+             'Sub': lambda x, y: ir.and_(x, ir.not_(y))}.get(op)
+        if f is None:
+            return NotImplemented
+        return SymSet([f(x, y) for x, y in zip(a.bits, b.bits)])
+
+    def sym_compare(self, interp, name, other):
+        if name in ('eq', 'ne') and isinstance(other, (SymSet, set, frozenset)):
+            o = SymSet.coerce(other)
+            t = ir.and_(*[ir.eq(x, y) for x, y in zip(self.bits, o.bits)])
+            return Sym(t if name == 'eq' else ir.not_(t))
+        return NotImplemented
+
+    def sym_getattr(self, interp, name):
+        if name == 'update':
+            def update(other):
+                o = SymSet.coerce(other)
+                self.bits = [ir.or_(x, y) for x, y in zip(self.bits, o.bits)]
+            return update
+        if name == 'add':
+            def add(e):
+                self.bits = [ir.or_(x, y) for x, y in zip(self.bits, SymSet.from_elems([e]).bits)]
+            return add
+        if name == 'issubset':
+            return lambda other: Sym(ir.and_(*[ir.implies(x, y) for x, y in zip(self.bits, SymSet.coerce(other).bits)]))
+        if name == 'copy':
+            return lambda: SymSet(list(self.bits))
+        raise Unsupported('set.' + name)
+
+    def kth(self, k):
+        """the k-th smallest element as a term (meaningful when size > k)"""
+        # element i is the k-th smallest iff bit i and exactly k bits below it
+        t = ir.const(0)
+        for i in reversed(range(self.W)):
+            below = ir.add(*[ir.ite(b, 1, 0) for b in self.bits[:i]]) if i else ir.const(0)
+            t = ir.ite(ir.and_(self.bits[i], ir.eq(below, k)), i, t)
+        return t
+
+    def sym_sorted(self):
+        return SymSortedSet(self)
+
+    def __repr__(self):
+        return 'SymSet(%s)' % ', '.join(ir.show(b)[:30] for b in self.bits)
+
+
+class SymSortedSet(object):
+    """sorted(S) / list(S) of a symbolic set: unpacking or indexing fixes the size by a branch"""
+    def __init__(self, s, ordered=True):
+        self.s, self.ordered = s, ordered
+
+    def sym_unpack(self, interp, n):
+        if not values.truth(Sym(ir.eq(self.s.size(), n))):
+            _raise('ValueError', 'not enough values to unpack (expected %d)' % n)
+        if not self.ordered and n > 1:
+            raise Unsupported('iteration order of a set')
+        return [Sym(self.s.kth(k)) for k in range(n)]
+
+    def sym_getitem(self, interp, key):
+        if not isinstance(key, int) or key < 0:
+            raise Unsupported('index %r into a symbolic set' % (key,))
+        if not values.truth(Sym(ir.gt(self.s.size(), key))):
+            _raise('IndexError', 'list index out of range')
+        if not self.ordered and not values.truth(Sym(ir.eq(self.s.size(), 1))):
+            raise Unsupported('iteration order of a set with more than one element')
+        return Sym(self.s.kth(key))
+
+    def sym_len(self, interp):
+        return Sym(self.s.size())
+
+
+_old_sorted2, _old_list2, _old_set2 = BUILTINS['sorted'], BUILTINS['list'], BUILTINS['set']
+
+
+def _sorted3(x, key=None, reverse=False):
+    if isinstance(x, SymSet) and key is None and not reverse:
+        return x.sym_sorted()
+    return _old_sorted2(x, key=key, reverse=reverse)
+
+
+def _list3(x=()):
+    if isinstance(x, SymSet):
+        return SymSortedSet(x, ordered=False)
+    return _old_list2(x)
+
+
+def _set3(x=()):
+    if isinstance(x, SymSet):
+        return SymSet(list(x.bits))
+    return _old_set2(x)
+
+
+BUILTINS.update({'sorted': _sorted3, 'list': _list3, 'set': _set3})
+for _nm in ('list', 'set'):
+    if _nm in _CTYPES:
+        _CTYPES[_nm] = CallableType(_TYPE_NAMES[_nm], BUILTINS[_nm])
